@@ -57,6 +57,8 @@ Definition bind_slot (keys : list var) (s : slot) : slot :=
 Section Model.
 Variable val : Type.
 Variable M : Mon.
+(* np.split(x, cumsum(dims)[:-1]) on a stacked vector -- only the stacked view needs to look inside a value *)
+Variable vsplit : list nat -> val -> list val.
 Notation V := (car M).
 Notation vadd := (madd M).
 Notation v0 := (mzero M).
@@ -254,7 +256,8 @@ Definition jlogd_kw (J : list dens) (kw : asg) : option V :=
 Definition jlogd (J : list dens) (args : list val) (kw : asg) : option V :=
   match jparse (jparams J) args kw with Some kw' => jlogd_kw J kw' | None => None end.
 
-Inductive flavor := FJoint | FMLP.     (* class of the joint object: JointDistribution / MultipleLikelihoodPosterior *)
+Inductive flavor := FJoint | FMLP | FStacked.   (* class of the joint object: JointDistribution / MultipleLikelihoodPosterior /
+                                                  _StackedJointDistribution (copy(self) keeps the class when conditioning) *)
 
 (* what conditioning returns *)
 Inductive obj :=
@@ -354,11 +357,39 @@ Definition dens_cond (f : dens) (args : list val) (kw : asg) : option dens :=
 Definition obj_params (o : obj) : list var :=
   match o with OJ _ J => jparams J | OP _ _ pr _ => dparams pr | OD f => dens_params f end.
 
+Definition jdims (J : list dens) : list nat :=
+  flat_map (fun f => match f with D d => [ddim d] | _ => [] end) J.
+
+(* _StackedJointDistribution.logd(stacked_input): exactly one positional argument, split at the
+   cumulative dimensions, zipped with the parameter names, JointDistribution.logd(keywords) *)
+Definition stacked_call (J : list dens) (args : list val) (kw : asg) : option V :=
+  match args, kw with
+  | [x], [] => jlogd_kw J (combine (jparams J) (vsplit (jdims J) x))
+  | _, _ => None
+  end.
+
 Definition obj_logd (strict : bool) (o : obj) (args : list val) (kw : asg) : option V :=
   match o with
+  | OJ FStacked J => stacked_call J args kw
   | OJ _ J => jlogd J args kw
   | OP ld data pr c => post_logd strict ld data pr c args kw
   | OD f => dens_logd strict f args kw
+  end.
+
+(* JointDistribution._as_stacked(): _StackedJointDistribution(densities) runs the constructor checks again *)
+Definition obj_stack (o : obj) : option obj :=
+  match o with
+  | OJ _ J => if joint_init_ok J then Some (OJ FStacked J) else None
+  | _ => None
+  end.
+
+(* BayesianProblem.likelihood / .prior: views of the Posterior target (0 = likelihood, 1 = prior);
+   refused unless the target is a Posterior *)
+Definition obj_view (which : nat) (o : obj) : option obj :=
+  match o, which with
+  | OP ld data _ _, O => Some (OD (L ld data))
+  | OP _ _ pr _, S O => Some (OD (D pr))
+  | _, _ => None
   end.
 
 Definition obj_logd_kw (o : obj) (kw : asg) : option V :=
@@ -374,33 +405,54 @@ Definition obj_logd_kw (o : obj) (kw : asg) : option V :=
   | OD f => dens_logd_kw f kw
   end.
 
-(* conditioning a Posterior on its parameter needs the name of a fresh object, which the code
-   infers from the Python stack: outside the model (None), only the empty call is modelled *)
-Definition obj_cond (o : obj) (args : list val) (kw : asg) : option obj :=
+(* Conditioning a Posterior on its own parameter.  Positionally it works (the "_main_parameter"
+   route of Distribution._condition -> to_likelihood -> EvaluatedDensity(self.logd(value))).  By
+   KEYWORD the code compares the keyword with self.name; the Posterior built by the reduction has no
+   name of its own, so the name is inferred from the Python stack and the call is refused
+   (pnamed = false: the code as it stands, finding Posterior._condition|own-parameter-by-keyword).
+   pnamed = true: the Posterior carries its prior's name (fixes/C01_posterior_name.diff). *)
+Definition post_cond (pnamed strict : bool) (ld : dist) (data : val) (pr : dist) (c : V)
+           (args : list val) (kw : asg) : option obj :=
+  let ev (x : val) := match post_logd strict ld data pr c [x] [] with
+                      | Some v => Some (OD (E (dname pr) v))
+                      | None => None
+                      end in
+  match args, kw with
+  | [], [] => Some (OP ld data pr c)
+  | [x], [] => ev x
+  | [], [(k, x)] => if pnamed && Nat.eqb k (dname pr) then ev x else None
+  | _, _ => None
+  end.
+
+Definition obj_cond (pnamed strict : bool) (o : obj) (args : list val) (kw : asg) : option obj :=
   match o with
   | OJ fl J => jcond fl J args kw
-  | OP _ _ _ _ => match args, kw with [], [] => Some o | _, _ => None end
+  | OP ld data pr c => post_cond pnamed strict ld data pr c args kw
   | OD f => match dens_cond f args kw with Some f' => Some (OD f') | None => None end
   end.
 
-Definition obj_cond_kw (o : obj) (kw : asg) : option obj :=
+Definition obj_cond_kw (pnamed : bool) (o : obj) (kw : asg) : option obj :=
   match o with
   | OJ fl J => jcond_kw fl J kw
-  | OP _ _ _ _ => match kw with [] => Some o | _ => None end
+  | OP ld data pr c => post_cond pnamed false ld data pr c [] kw
   | OD f => match cond_dens f (restrict kw (dens_params f)) with Some f' => Some (OD f') | None => None end
   end.
 
-Fixpoint run_steps_kw (o : obj) (steps : list asg) : option obj :=
+Fixpoint run_steps_kw (pnamed : bool) (o : obj) (steps : list asg) : option obj :=
   match steps with
   | [] => Some o
-  | kw :: r => match obj_cond_kw o kw with Some o' => run_steps_kw o' r | None => None end
+  | kw :: r => match obj_cond_kw pnamed o kw with Some o' => run_steps_kw pnamed o' r | None => None end
   end.
+
+(* BayesianProblem.set_data: refuses unless the target is still a JointDistribution *)
+Definition bp_set_data (o : obj) (kw : asg) : option obj :=
+  match o with OJ fl J => jcond_kw fl J kw | _ => None end.
 
 (* kind of the returned object: 0 JointDistribution, 1 MultipleLikelihoodPosterior, 2 Posterior,
    3 Distribution, 4 Likelihood, 5 EvaluatedDensity *)
 Definition obj_kind (o : obj) : nat :=
   match o with
-  | OJ FJoint _ => 0 | OJ FMLP _ => 1 | OP _ _ _ _ => 2
+  | OJ FJoint _ => 0 | OJ FMLP _ => 1 | OJ FStacked _ => 6 | OP _ _ _ _ => 2
   | OD (D _) => 3 | OD (L _ _) => 4 | OD (E _ _) => 5
   end%nat.
 
@@ -433,6 +485,8 @@ Arguments post_logd {val M}. Arguments dens_cond {val M}. Arguments obj_params {
 Arguments obj_logd {val M}. Arguments obj_logd_kw {val M}. Arguments obj_cond {val M}.
 Arguments obj_cond_kw {val M}. Arguments run_steps_kw {val M}. Arguments obj_kind {val M}.
 Arguments obj_const {val M}.
+Arguments jdims {val M}. Arguments stacked_call {val M}. Arguments obj_stack {val M}. Arguments obj_view {val M}.
+Arguments post_cond {val M}. Arguments bp_set_data {val M}.
 
 (* ------------------------------------------------------------------------------------------ *)
 (* _StackedJointDistribution.logd(stacked_input): np.split(x, cumsum(dims)[:-1]) -- the last piece
@@ -445,137 +499,192 @@ Fixpoint split_at (dims : list nat) (x : list A) : list (list A) :=
   | [_] => [x]
   | d :: ds => firstn d x :: split_at ds (skipn d x)
   end.
-Definition jdims (J : list (dens (list A) M)) : list nat :=
-  flat_map (fun f => match f with D d => [ddim d] | _ => [] end) J.
 Definition stacked_logd (J : list (dens (list A) M)) (x : list A) : option (car M) :=
   jlogd_kw J (combine (jparams J) (split_at (jdims J) x)).
 End Stacked.
 
 (* ------------------------------------------------------------------------------------------ *)
-(* Instantiation used by the correspondence: values are rational vectors, log-densities rationals;
-   a factor's logpdf is a finite table from the values of (dvars ++ [name]) to the value obtained
-   from the UNTOUCHED factor (harness oracle); a key that is not in the table (the glue routed a
-   wrong value) yields the poison value and the case disagrees. *)
+(* Instantiation used by the correspondence: values are rational vectors; a factor's logpdf is a
+   finite table from the values of (dvars ++ [name]) to the value obtained from the UNTOUCHED
+   factor (harness oracle); a key that is not in the table (the glue routed a wrong value) yields
+   the poison value and the case disagrees.  Log-densities: exact rationals (QM; integer-valued test
+   distributions, compared exactly, or within a tolerance), or binary64 floats with IEEE addition
+   (FM; real families: the model's order of summation -- 0 + f1 + f2 + ... over the factors in
+   order, (likelihood + prior) + constant, constant = 0 + e1 + e2 + ... -- is then compared with the
+   implementation BIT FOR BIT). *)
+From Coq Require Import Floats.
+
 Definition qval := list Q.
-Fixpoint tbl (t : list (list qval * Q)) (poison : Q) (key : list qval) : Q :=
+Definition qsplit : list nat -> qval -> list qval := split_at.
+Definition qasg := list (var * qval).
+Definition call := (list qval * qasg)%type.
+
+Definition FM : Mon := mkMon float PrimFloat.add 0%float.
+Definition feq (a b : float) : bool := PrimFloat.eqb a b.
+
+Section Tables.
+Context {T : Type}.
+Fixpoint tbl (t : list (list qval * T)) (poison : T) (key : list qval) : T :=
   match t with
   | [] => poison
   | (k, v) :: r => if qll_eqb k key then v else tbl r poison key
   end.
+End Tables.
 
 Definition poison : Q := 999983 # 1.
 Definition qmk (name : var) (dim : nat) (ss : list slot) (c : Q) (t : list (list qval * Q)) : dist qval QM :=
   @mk_dist qval QM name dim ss c (tbl t poison).
 Definition qD (d : dist qval QM) : dens qval QM := D d.
 Definition qL (d : dist qval QM) (data : qval) : dens qval QM := L d data.
+Definition fmk (name : var) (dim : nat) (ss : list slot) (t : list (list qval * float)) : dist qval FM :=
+  @mk_dist qval FM name dim ss 0%float (tbl t 999983%float).
+Definition fD (d : dist qval FM) : dens qval FM := D d.
 Definition qdens := dens qval QM.
 Definition qobj := obj qval QM.
-Definition qasg := list (var * qval).
 
-(* one conditioning step / one evaluation as the harness performs it: positional values + keywords *)
-Definition call := (list qval * qasg)%type.
+Section Check.
+Variable M : Mon.
+Variable veq : car M -> car M -> bool.          (* observed value vs model value *)
+Variable pnamed strict : bool.                  (* which repair state the implementation is in *)
+Notation mobj := (obj qval M).
+Notation mdens := (dens qval M).
 
-Definition oq_eqb (a b : option Q) : bool := opt_eqb Qeq_bool a b.
-Definition oq_close (tol : Q) (obs model : option Q) : bool :=
+Definition ov_eq (obs model : option (car M)) : bool :=
   match obs, model with
-  | Some a, Some b => q_close tol a b
+  | Some a, Some b => veq a b
   | None, None => true
   | _, _ => false
   end.
 
-(* observation of one stage: None = the conditioning call raised; else (kind, parameter names in
-   order, _constant of a reduced single density if any) *)
-Definition stage_obs := option (nat * list var * option Q)%type.
+(* observation of one stage: None = the call raised; else (kind, parameter names in order,
+   _constant of a reduced single density if any) *)
+Definition stage_obs := option (nat * list var * option (car M))%type.
 
-Definition stage_of (tol : Q) (o : option qobj) (obs : stage_obs) : bool :=
+Definition stage_of (o : option mobj) (obs : stage_obs) : bool :=
   match o, obs with
   | None, None => true
   | Some o, Some (k, ps, c) =>
       Nat.eqb (obj_kind o) k && list_eqb Nat.eqb (obj_params o) ps &&
       match obj_const o, c with
-      | Some a, Some b => q_close tol b a
+      | Some a, Some b => veq b a
       | None, None => true
       | _, _ => false
       end
   | _, _ => false
   end.
 
+Definition mcond (o : mobj) (c : call) : option mobj := obj_cond pnamed strict o (fst c) (snd c).
+Definition mlogd (o : mobj) (c : call) : option (car M) := obj_logd qsplit strict o (fst c) (snd c).
+
 (* run the conditioning calls; after a refused call nothing else is observed *)
-Fixpoint check_stages (tol : Q) (o : qobj) (steps : list call) (obs : list stage_obs) : option (option qobj) :=
+Fixpoint check_stages (o : mobj) (steps : list call) (obs : list stage_obs) : option (option mobj) :=
   match steps, obs with
   | [], [] => Some (Some o)
-  | (args, kw) :: steps', ob :: obs' =>
-      let o' := obj_cond o args kw in
-      if stage_of tol o' ob
+  | c :: steps', ob :: obs' =>
+      let o' := mcond o c in
+      if stage_of o' ob
       then match o' with
-           | Some o1 => check_stages tol o1 steps' obs'
+           | Some o1 => check_stages o1 steps' obs'
            | None => match steps' with [] => Some None | _ => None end
            end
       else None
   | _, _ => None
   end.
 
-(* a whole case: start object (a joint built by JointDistribution(factors)), conditioning calls,
-   the evaluations of the final object (several call forms), observed stages and values *)
-Definition check_run (strict : bool) (tol : Q) (J : list qdens) (steps : list call) (obs : list stage_obs)
-           (evals : list (call * option Q)) : bool :=
-  match check_stages tol (OJ FJoint J) steps obs with
-  | Some (Some o) => forallb (fun e => let '((args, kw), v) := e in oq_close tol v (obj_logd strict o args kw)) evals
+Definition check_from (o : mobj) (steps : list call) (obs : list stage_obs)
+           (evals : list (call * option (car M))) : bool :=
+  match check_stages o steps obs with
+  | Some (Some o) => forallb (fun e => ov_eq (snd e) (mlogd o (fst e))) evals
   | Some None => match evals with [] => true | _ => false end
   | None => false
   end.
 
-(* same, starting from a single density (direct calls on Distribution / Likelihood objects) *)
-Definition check_run_dens (strict : bool) (tol : Q) (f : qdens) (steps : list call) (obs : list stage_obs)
-           (evals : list (call * option Q)) : bool :=
-  match check_stages tol (OD f) steps obs with
-  | Some (Some o) => forallb (fun e => let '((args, kw), v) := e in oq_close tol v (obj_logd strict o args kw)) evals
-  | Some None => match evals with [] => true | _ => false end
-  | None => false
-  end.
-
-(* stacked view of the joint reached after the steps *)
-Fixpoint run_calls (o : qobj) (s : list call) : option qobj :=
+Fixpoint run_calls (o : mobj) (s : list call) : option mobj :=
   match s with
   | [] => Some o
-  | (a, k) :: r => match obj_cond o a k with Some o' => run_calls o' r | None => None end
+  | c :: r => match mcond o c with Some o' => run_calls o' r | None => None end
   end.
-Definition check_stacked (tol : Q) (J : list qdens) (steps : list call) (x : list Q) (v : option Q) : bool :=
-  match run_calls (OJ FJoint J) steps with
-  | Some (OJ _ J') => oq_close tol v (stacked_logd J' x)
+
+(* Programs over live objects: the harness keeps every object alive.  Object 0 is the start
+   object; every creating op appends its result (None if the call raised) as a new object; an EARLIER
+   object may be evaluated after later objects were derived from it, the same parent may be
+   conditioned several times.  The model is a pure function, so in the model an object never
+   changes: a disagreement on a re-evaluation means the implementation's objects share mutable state. *)
+Inductive hop :=
+  | OpCond (src : nat) (c : call) (ob : stage_obs)            (* obj(args, keywords) *)
+  | OpEval (src : nat) (c : call) (v : option (car M))        (* obj.logd(args, keywords) *)
+  | OpStack (src : nat) (ob : stage_obs)                      (* obj._as_stacked() *)
+  | OpView (which src : nat) (ob : stage_obs)                 (* BayesianProblem.likelihood / .prior of the target *)
+  | OpSetData (src : nat) (kw : qasg) (ob : stage_obs).       (* BayesianProblem.set_data *)
+
+Definition get_obj (objs : list (option mobj)) (src : nat) : option mobj :=
+  match nth_error objs src with Some (Some o) => Some o | _ => None end.
+
+Fixpoint check_prog (objs : list (option mobj)) (ops : list hop) : bool :=
+  match ops with
+  | [] => true
+  | op :: r =>
+      match op with
+      | OpEval src c v =>
+          match get_obj objs src with
+          | Some o => ov_eq v (mlogd o c) && check_prog objs r
+          | None => false
+          end
+      | OpCond src c ob =>
+          match get_obj objs src with
+          | Some o => let o' := mcond o c in stage_of o' ob && check_prog (objs ++ [o']) r
+          | None => false
+          end
+      | OpStack src ob =>
+          match get_obj objs src with
+          | Some o => let o' := obj_stack o in stage_of o' ob && check_prog (objs ++ [o']) r
+          | None => false
+          end
+      | OpView which src ob =>
+          match get_obj objs src with
+          | Some o => let o' := obj_view which o in stage_of o' ob && check_prog (objs ++ [o']) r
+          | None => false
+          end
+      | OpSetData src kw ob =>
+          match get_obj objs src with
+          | Some o => let o' := bp_set_data o kw in stage_of o' ob && check_prog (objs ++ [o']) r
+          | None => false
+          end
+      end
+  end.
+
+Definition check_history_from (o : mobj) (ops : list hop) : bool := check_prog [Some o] ops.
+End Check.
+
+Arguments OpCond {M}. Arguments OpEval {M}. Arguments OpStack {M}. Arguments OpView {M}. Arguments OpSetData {M}.
+
+(* ---- Q instances (exact when tol = 0) ---- *)
+Definition qCond := @OpCond QM. Definition qEval := @OpEval QM. Definition qStack := @OpStack QM.
+Definition qView := @OpView QM. Definition qSetData := @OpSetData QM.
+Definition fCond := @OpCond FM. Definition fEval := @OpEval FM. Definition fStack := @OpStack FM.
+Definition fView := @OpView FM. Definition fSetData := @OpSetData FM.
+Definition qeq (tol : Q) (obs model : Q) : bool := q_close tol obs model.
+
+Definition check_run (pnamed strict : bool) (tol : Q) (J : list qdens) steps obs evals : bool :=
+  check_from QM (qeq tol) pnamed strict (OJ FJoint J) steps obs evals.
+Definition check_run_dens (pnamed strict : bool) (tol : Q) (f : qdens) steps obs evals : bool :=
+  check_from QM (qeq tol) pnamed strict (OD f) steps obs evals.
+Definition check_history (pnamed strict : bool) (tol : Q) (J : list qdens) (ops : list (hop QM)) : bool :=
+  check_history_from QM (qeq tol) pnamed strict (OJ FJoint J) ops.
+Definition check_history_dens (pnamed strict : bool) (tol : Q) (f : qdens) (ops : list (hop QM)) : bool :=
+  check_history_from QM (qeq tol) pnamed strict (OD f) ops.
+
+(* stacked view of the joint reached after the steps *)
+Definition check_stacked (pnamed strict : bool) (tol : Q) (J : list qdens) (steps : list call) (x : list Q) (v : option Q) : bool :=
+  match run_calls QM pnamed strict (OJ FJoint J) steps with
+  | Some (OJ _ J') => ov_eq QM (qeq tol) v (stacked_logd J' x)
   | _ => false
   end.
+
+(* ---- float instance: bit-for-bit ---- *)
+Definition check_history_f (pnamed strict : bool) (J : list (dens qval FM)) (ops : list (hop FM)) : bool :=
+  check_history_from FM feq pnamed strict (OJ FJoint J) ops.
 
 (* conditioning variables of a distribution given by its slots, before and after binding *)
 Definition check_slots (ss : list slot) (keys : list var) (obs_before obs_after : list var) : bool :=
   list_eqb Nat.eqb (cond_vars ss) obs_before && list_eqb Nat.eqb (cond_vars (map (bind_slot keys) ss)) obs_after.
-
-(* ------------------------------------------------------------------------------------------ *)
-(* Branching histories: the harness keeps every object alive.  Object 0 is the joint built by the
-   constructor; OpCond src call obs conditions object number src and appends the result as a new
-   object; OpEval src call v evaluates object number src (an EARLIER object may be evaluated after
-   later objects were derived from it, the same parent may be conditioned several times).  The
-   model is a pure function, so in the model an object never changes: any disagreement on a
-   re-evaluation means the implementation's objects share mutable state. *)
-Inductive hop :=
-  | OpCond (src : nat) (c : call) (ob : stage_obs)
-  | OpEval (src : nat) (c : call) (v : option Q).
-
-Fixpoint check_prog (strict : bool) (tol : Q) (objs : list (option qobj)) (ops : list hop) : bool :=
-  match ops with
-  | [] => true
-  | OpCond src (args, kw) ob :: r =>
-      match nth_error objs src with
-      | Some (Some o) => let o' := obj_cond o args kw in
-                         stage_of tol o' ob && check_prog strict tol (objs ++ [o']) r
-      | _ => false
-      end
-  | OpEval src (args, kw) v :: r =>
-      match nth_error objs src with
-      | Some (Some o) => oq_close tol v (obj_logd strict o args kw) && check_prog strict tol objs r
-      | _ => false
-      end
-  end.
-
-Definition check_history (strict : bool) (tol : Q) (J : list qdens) (ops : list hop) : bool :=
-  check_prog strict tol [Some (OJ FJoint J)] ops.
